@@ -68,8 +68,11 @@ def make_case(gen, r, d, force=None):
     cfg = [c for c in covering_configs(r, 6) if c["merge"] != "mergetool"]
     cfg = r.choice(cfg)
     generic = r.choice([[], [], [], ["--log-level", "DEBUG"], ["--log-level", "ERROR"], ["--log-level", "WARN"], ["--log-level", "CRITICAL"]])
+    # how the local notebook file is called: usually local.ipynb; sometimes a bare name that resembles a missing-file
+    # marker of some platform (NUL / nul), or has no extension at all - still an ordinary file with a notebook in it
+    lname = r.choice([None] * 7 + ["NUL", "nul", "local", "null"])
     return {"class": cls, "base": b, "local": l, "remote": rm, "placeholder": placeholder, "mode": mode, "config": cfg,
-            "flags": config_flags(cfg), "generic_flags": generic}
+            "flags": config_flags(cfg), "generic_flags": generic, "local_name": lname}
 
 
 def prepare(case, d, r):
@@ -78,7 +81,7 @@ def prepare(case, d, r):
         p = os.path.join(d, fn)
         if not os.path.isdir(p):
             os.remove(p)
-    fb, fl, fr, fo = (os.path.join(d, n) for n in ("base.ipynb", "local.ipynb", "remote.ipynb", "out.ipynb"))
+    fb, fl, fr, fo = (os.path.join(d, n) for n in ("base.ipynb", case.get("local_name") or "local.ipynb", "remote.ipynb", "out.ipynb"))
     # same disk form in every re-run of the case, and the same line-splitting choices in the three files (sides that
     # differ in single characters then have the same byte size, as they have when one tool wrote all three)
     write_nb(fb, case["base"], random.Random(1))
@@ -86,6 +89,8 @@ def prepare(case, d, r):
     write_nb(fr, case["remote"], random.Random(1))
     ph = case["placeholder"]
     ab, al, ar = fb, fl, fr
+    if case.get("local_name"):
+        al = case["local_name"]        # given as a bare relative name (the command runs in this directory)
     if ph == "base_null":
         ab = "/dev/null"
     elif ph == "local_null":
